@@ -64,10 +64,10 @@ def families(tier):
             # 2 writers, 1 region, generations 0..2: every history of 3 operations (stale handles by commits of the
             # other writer and by checkout of any earlier version) after each of 12 sequential prefixes (<= 5 ops)
             dict(name="conc", regions=["A"], maxgen=2, handles=["a", "b"], maxops=3, maxhi=2, opkinds=base,
-                 prefixes=one, cap=900, mc=True),
+                 prefixes=one, cap=600, mc=True),
             # calls the API must reject (wrong state, missing generation, wrong / missing expected owner) and plain appends
             dict(name="invalid", regions=["A"], maxgen=1, handles=["a", "b"], maxops=2, maxhi=1,
-                 opkinds=ALL_KINDS + ["invalid"], prefixes=[1, 2, 4, 5, 7, 9], cap=250, mc=True),
+                 opkinds=ALL_KINDS + ["invalid"], prefixes=[1, 2, 4, 5, 7, 9], cap=200, mc=True),
         ]
     return [
         dict(name="conc", regions=["A"], maxgen=2, handles=["a", "b"], maxops=4, maxhi=2, opkinds=base,
@@ -121,23 +121,36 @@ def hist_to_scenario(hist, sid, handles):
     return {"id": sid, "prefix": hist[0]["prefix"], "steps": steps, "model_res": [st["res"] for st in hist[1:]]}, tags
 
 
-def pick(items, cap, rnd):
-    """items: list of (scenario, tags).  Seeded stratified choice: histories in which the as-built model breaks an
-    invariant, histories in which a stale handle committed, histories with a conflict on a stale handle, the rest."""
+def pick(items, cap, rnd, per_sig=8):
+    """items: list of (scenario, tags, sigs).  Seeded stratified choice.  Every finding signature the as-built
+    model produces in this family is represented (so the set of findings a run reports does not depend on the
+    seed); then histories in which a stale handle committed, histories with a conflict on a stale handle, the rest."""
     if len(items) <= cap:
-        return [s for s, _ in items], True
+        return [it[0] for it in items], True
     idx = list(range(len(items)))
-    groups = [[i for i in idx if "broken" in items[i][1]],
-              [i for i in idx if "broken" not in items[i][1] and "stale_ok" in items[i][1]],
-              [i for i in idx if not {"broken", "stale_ok"} & items[i][1] and "stale_conflict" in items[i][1]],
-              [i for i in idx if not {"broken", "stale_ok", "stale_conflict"} & items[i][1]]]
     taken = set()
-    for grp, share in zip(groups, (0.4, 0.3, 0.15, 0.15)):
-        taken.update(rnd.sample(grp, min(len(grp), int(cap * share))))
+    by_sig = {}
+    for i in idx:
+        for sg in items[i][2]:
+            by_sig.setdefault(sg, []).append(i)
+    for sg in sorted(by_sig):
+        taken.update(rnd.sample(by_sig[sg], min(len(by_sig[sg]), per_sig)))
+    groups = [[i for i in idx if items[i][2]],
+              [i for i in idx if not items[i][2] and "stale_ok" in items[i][1]],
+              [i for i in idx if not items[i][2] and "stale_ok" not in items[i][1] and "stale_conflict" in items[i][1]],
+              [i for i in idx if not items[i][2] and not {"stale_ok", "stale_conflict"} & items[i][1]]]
+    room = max(0, cap - len(taken))
+    for grp, share in zip(groups, (0.35, 0.35, 0.15, 0.15)):
+        grp = [i for i in grp if i not in taken]
+        taken.update(rnd.sample(grp, min(len(grp), int(room * share))))
     rest = [i for i in idx if i not in taken]
     if len(taken) < cap and rest:
         taken.update(rnd.sample(rest, min(len(rest), cap - len(taken))))
     return [items[i][0] for i in sorted(taken)], False
+
+
+def sig_key(inv, dev):
+    return (inv, tuple(dev))
 
 
 def replay_and_validate(name, prop, scenarios, shards, mutate=None, timeout=3000):
@@ -179,7 +192,7 @@ def collect(prop, out, reports, scn_by_id, counts_total, per_scn_bad, observed=N
             pos, scn, i, kind, inv, extra = b
             per_scn_bad.add(scn)
             if observed is not None:
-                observed.setdefault(scn, set()).add(inv)
+                observed.setdefault(scn, set()).add(sig_key(inv, extra))
             if lines is None:
                 lines = open(tf).read().splitlines()
             ev = json.loads(lines[pos - 1])
@@ -247,10 +260,12 @@ def run(prop, tier, replay):
         f_gen = {fam["name"]: ex.submit(gen_as_built, fam) for fam in fams}
         r_mc = {k: f.result() for k, f in f_mc.items()}
         r_gen = {k: f.result() for k, f in f_gen.items()}
+    phase = {"tlc_s": round(time.time() - t0, 1)}
 
     states = trans = 0
     mc_info = []
-    as_built_breaks = {inv: 0 for inv in INVS}
+    model_sigs = {}
+    exhaustive_sigs = set()
     exhaustive = True
     chosen_all = []
     predicted = {}
@@ -280,11 +295,16 @@ def run(prop, tier, replay):
         items = []
         for x in hists:
             sc, tags = hist_to_scenario(x["hist"], len(predicted) + 1, fam["handles"])
-            predicted[sc["id"]] = sorted(x["broken"])
-            for inv in x["broken"]:
-                as_built_breaks[inv] += 1
-                tags.add("broken")
-            items.append((sc, tags))
+            sigs = sorted({sig_key(sg[0], sg[1]) for sg in x["sigs"]})
+            predicted[sc["id"]] = sigs
+            for sg in sigs:
+                model_sigs[sg] = model_sigs.get(sg, 0) + 1
+            items.append((sc, tags, sigs))
+        if fam.get("simulate"):
+            # random deep walks: only those whose findings are the ones of the exhaustive families (stable signatures)
+            items = [it for it in items if all(sg in exhaustive_sigs for sg in it[2])]
+        else:
+            exhaustive_sigs.update(sg for it in items for sg in it[2])
         chosen, complete = pick(items, fam["cap"], rnd)
         if not complete or fam.get("simulate"):
             exhaustive = False
@@ -292,7 +312,7 @@ def run(prop, tier, replay):
             fam_of[sc["id"]] = fam["name"]
         chosen_all += chosen
         mc_info.append({"family": fam["name"], "design": "as-built (history generation)", "histories": len(hists),
-                        "histories_breaking_an_invariant_in_the_model": sum(1 for x in hists if x["broken"]),
+                        "histories_breaking_an_invariant_in_the_model": sum(1 for x in hists if x["sigs"]),
                         "replayed": len(chosen), "distinct": gstats.get("distinct"), "generated": gstats.get("generated"),
                         "wall_s": gstats["wall_s"]})
         if not fam.get("simulate"):
@@ -302,6 +322,7 @@ def run(prop, tier, replay):
     # 3. replay on the implementation, 4. validate
     mutate = os.environ.get("VERIF_C39_MUTATE")     # binding demonstration only: seeded defects emulated by the driver
     reports, scn_file, build_s = replay_and_validate("all", prop, chosen_all, shards, mutate=mutate)
+    phase["replay_validate_s"] = round(time.time() - t0 - phase["tlc_s"], 1)
     scn_by_id = {s["id"]: s for s in chosen_all}
     counts_total = {}
     badscn = set()
@@ -321,13 +342,17 @@ def run(prop, tier, replay):
                 break
     # the implementation conformed step by step, so the invariants it breaks per scenario must be the ones the
     # as-built model breaks on the same history; anything else is a fault of this machinery
-    nonconf = {b for b in badscn if "Conformance" in observed.get(b, set())}
+    nonconf = {b for b in badscn if any(sg[0] == "Conformance" for sg in observed.get(b, set()))}
     for sid in scn_by_id:
         if mutate:
             break
         if sid not in nonconf and sorted(observed.get(sid, set())) != predicted[sid]:
             raise vlib.ToolError(f"scenario {sid}: model predicts violations {predicted[sid]} but the trace validator "
                                  f"found {sorted(observed.get(sid, set()))}")
+    obs_sigs = {}
+    for sid, sgs in observed.items():
+        for sg in sgs:
+            obs_sigs[sg] = obs_sigs.get(sg, 0) + 1
     # vacuity: the run must have exercised what it claims
     need = ["advance", "append", "seal", "flush", "merge", "owner", "trim", "mmerge", "checkout", "tappend",
             "ok", "incompatible", "invalid", "stale_ok", "stale_incompatible", "versions_judged", "scenarios"]
@@ -345,9 +370,10 @@ def run(prop, tier, replay):
                 "replayed when above the cap; non-trivial = at least one MemWAL transaction committed through a concurrent "
                 "writer's handle and every step of the scenario was accepted by Trace_MemWal",
         "exhaustive": exhaustive, "model_runs": mc_info, "event_counts": counts_total, "events_validated": total_events,
-        "as_built_design_breaks": as_built_breaks,
+        "as_built_model_findings": [{"invariant": k[0], "deviation": list(k[1]), "histories": v} for k, v in sorted(model_sigs.items())],
+        "findings_observed_on_impl": [{"invariant": k[0], "deviation": list(k[1]), "scenarios": v} for k, v in sorted(obs_sigs.items())],
         "deviations_observed_on_impl": {d: counts_total.get(d, 0) for d in AS_BUILT},
         "side_observation_rows_dropped_steps": counts_total.get("rows_dropped", 0),
-        "invariants": INVS, "harness_build_s": build_s,
+        "invariants": INVS, "harness_build_s": build_s, "phase_wall_s": phase,
     }, time.time() - t0, len(out.violations), assumptions)
     return rc
